@@ -92,7 +92,7 @@ func (s *c20State) exec(line string) string {
 			return "bad-op"
 		}
 		return s.execWrappers(line)
-	case "own", "fix", "priv", "ext", "signer":
+	case "own", "fix", "priv", "ext", "signer", "rows":
 		if s.priv == nil {
 			return "bad-op"
 		}
